@@ -260,7 +260,7 @@ func c13(c *Ctx) {
 		r.Check("invalidate:key", strings.HasSuffix(pathOf(a[0]), ".cache") && strings.HasSuffix(strings.TrimSuffix(pathOf(a[1]), ")"), "pod.Status.PodIP"), del.Pos(), "delete(p.cache, Source(pod.Status.PodIP))")
 	})
 
-	c.Rule("C13.R3", "sibling agreement: index function and invalidation use the same predicate and key; the predicate is 'has IP, not finished, not host network'", 8, func(r *Rule) {
+	c.Rule("C13.R3", "sibling agreement: index function and invalidation use the same predicate and key; the predicate is 'has IP, not finished, not host network'", 6, func(r *Rule) {
 		if idx == nil || inv == nil || iip == nil {
 			r.Unresolved("podByIpIndexFunc / maybeInvalidateCacheForPod / isIndexablePod")
 			return
@@ -289,63 +289,23 @@ func c13(c *Ctx) {
 			}
 		})
 		r.Check("index:key-is-PodIP-when-indexable", okKey, idx.Pos(), "indexable pods are indexed under pod.Status.PodIP (the key the invalidation deletes)")
-		// predicate: each disqualifier leads to `return false`
-		want := map[string]bool{"PodIP-empty": false, "finished": false, "host-network": false}
-		eachInstr(iip, func(in ssa.Instruction) {
-			ifi, ok := in.(*ssa.If)
-			if !ok {
-				return
-			}
-			ce := condExpr(ifi.Cond)
-			leaf := leafEffects(ifi.Block().Succs[0], 0, nil)
-			if !strings.Contains(leaf, "return false") {
-				return
-			}
-			switch {
-			case strings.Contains(ce, "PodIP==\"\""):
-				want["PodIP-empty"] = true
-			case strings.Contains(ce, "podIsFinishedRunning"):
-				want["finished"] = true
-			case strings.Contains(ce, "podIsHostNetwork"):
-				want["host-network"] = true
-			}
+		// predicate: a decision table over its six atoms (helpers evaluated through their bodies, so
+		// an if-chain, one boolean expression and helpers written in place are all the same table)
+		ip, host := "p0.Status.PodIP", "p0.Status.HostIP"
+		phase := "p0.Status.Phase"
+		aEmpty := atomKey(ip, `""`)
+		aSucc := atomKey(phase, `"Succeeded"`)
+		aFail := atomKey(phase, `"Failed"`)
+		aNotDel := atomKey("p0.ObjectMeta.DeletionTimestamp", "nil") // true: not being deleted
+		aHN := "p0.Spec.HostNetwork"
+		aSame := atomKey(ip, host)
+		atoms := []string{aEmpty, aSucc, aFail, aNotDel, aHN, aSame}
+		bad, unknown, impure := boolTable(iip, atoms, func(a map[string]bool) bool {
+			return !a[aEmpty] && !(a[aSucc] || a[aFail] || !a[aNotDel]) && !(a[aHN] || a[aSame])
 		})
-		for k, v := range want {
-			r.Check("isIndexablePod:"+k, v, iip.Pos(), "disqualifier "+k+" returns false")
-		}
-		// and nothing else returns false / the fallthrough returns true
-		nTrue := 0
-		eachInstr(iip, func(in ssa.Instruction) {
-			if rt, ok := in.(*ssa.Return); ok {
-				if k, ok := rt.Results[0].(*ssa.Const); ok && k.Value.ExactString() == "true" {
-					nTrue++
-					r.Check("isIndexablePod:true-only-when-all-pass", len(condsFor(rt.Block())) == 3, rt.Pos(), fmt.Sprintf("returns true under %d conditions (three disqualifiers all false)", len(condsFor(rt.Block()))))
-				}
-			}
-		})
-		r.Check("isIndexablePod:returns-true", nTrue == 1, iip.Pos(), "one `return true`")
-		fin := w.Func(P, "podIsFinishedRunning")
-		hn := w.Func(P, "podIsHostNetwork")
-		if fin == nil || hn == nil {
-			r.Unresolved("podIsFinishedRunning / podIsHostNetwork")
-			return
-		}
-		body := func(fn *ssa.Function) string {
-			var s []string
-			eachInstr(fn, func(in ssa.Instruction) {
-				if b, ok := in.(*ssa.BinOp); ok {
-					s = append(s, condExpr(b))
-				}
-				if u, ok := in.(*ssa.UnOp); ok && strings.HasSuffix(pathOf(u), ".HostNetwork") {
-					s = append(s, pathOf(u))
-				}
-			})
-			return strings.Join(s, " ; ")
-		}
-		fb := body(fin)
-		r.Check("podIsFinishedRunning", strings.Contains(fb, ".Phase==\"Succeeded\"") && strings.Contains(fb, ".Phase==\"Failed\"") && strings.Contains(fb, "DeletionTimestamp!=nil"), fin.Pos(), fb)
-		hb := body(hn)
-		r.Check("podIsHostNetwork", strings.Contains(hb, "Spec.HostNetwork") && strings.Contains(hb, "Status.PodIP==pod.Status.HostIP"), hn.Pos(), hb)
+		r.Check("isIndexablePod:pure", impure == "", iip.Pos(), "the predicate has no side effects "+impure)
+		r.Check("isIndexablePod:only-known-conditions", len(unknown) == 0, iip.Pos(), "conditions consulted: PodIP empty, phase Succeeded/Failed, deletion timestamp, host network, PodIP==HostIP "+strings.Join(unknown, "; "))
+		r.Check("isIndexablePod:decision-table", len(bad) == 0, iip.Pos(), fmt.Sprintf("indexable <=> has IP && !(Succeeded||Failed||deleting) && !(HostNetwork||PodIP==HostIP), over all %d assignments %s", 1<<len(atoms), strings.Join(bad, "; ")))
 	})
 
 	c.Rule("C13.R4", "memo cache: written under the write lock, read under the read lock, only real instances short-circuit the informer", 5, func(r *Rule) {
